@@ -93,8 +93,8 @@ Proof.
   induction 1 as [|[k x] rels Hn _ IH]; intros s s'; cbn.
   - intros H; injection H as <-. reflexivity.
   - destruct (res_get src (from_name x)) as [v| |]; cbn; try discriminate.
-    destruct v; try discriminate; destruct (to_one x); try discriminate;
-      (intros H; rewrite (IH _ _ H); rewrite soft_set_id_other by exact Hn; apply soft_add_rel_id).
+    destruct v; try destruct (to_one x);
+      (intros H; rewrite (IH _ _ H); rewrite ?soft_set_id_other by exact Hn; apply soft_add_rel_id).
 Qed.
 
 (** the appended element carries the resource's ID *)
